@@ -124,7 +124,20 @@ type DocShallowFirst struct {
 	Title string
 }
 
+// the same name promoted through an embedded pointer (shallower) and through two structs embedded by value (deeper)
+type PA struct{ PX string }
+type VC struct {
+	PX string
+	VY string
+}
+type VB struct{ VC }
+type PtrVsVal struct {
+	*PA
+	VB
+}
+
 type Root struct {
+	PV    PtrVsVal
 	Hits  Counter
 	PHits *Counter
 	Tags  TagList
@@ -203,6 +216,7 @@ func (g *Gen) inner() Inner {
 
 func (g *Gen) Root() *Root {
 	r := &Root{S: g.Tok(), I: 41 + g.R.Intn(9), B: true}
+	r.PV = PtrVsVal{PA: &PA{PX: g.Tok()}, VB: VB{VC{PX: g.Tok(), VY: g.Tok()}}}
 	r.Hits = Counter(20 + g.R.Intn(30))
 	ph := Counter(70 + g.R.Intn(20))
 	r.PHits = &ph
